@@ -5,6 +5,8 @@ pub mod c06;
 pub mod cc14;
 pub mod numeric;
 pub mod pn;
+#[cfg(feature = "std")]
+pub mod polling;
 
 use crate::report::Report;
 use crate::util::Cfg;
@@ -22,6 +24,12 @@ pub fn run_prop(id: &str, cfg: &Cfg, rep: &mut Report) -> bool {
         "C09" => pn::run_c09(cfg, rep),
         "C10" => pn::run_c10(cfg, rep),
         "C11" => pn::run_c11(cfg, rep),
+        #[cfg(feature = "std")]
+        "C12" => polling::run_c12(cfg, rep),
+        #[cfg(feature = "std")]
+        "C13" => polling::run_c13(cfg, rep),
+        #[cfg(feature = "std")]
+        "C14" => polling::run_c14(cfg, rep),
         _ => return false,
     }
     true
